@@ -94,7 +94,7 @@ TRANSFER_H = ['droop.rules.wigm.Rule.count.<locals>.transfer', 'droop.rules.wigm
 
 
 @contract(TRANSFER_H, props=['C02', 'C06'], free={'E': 'Election', 'C': 'Candidates'},
-          instances=['scaled', 'real'])
+          instances=['scaled', 'real'], ledger=True)
 def transfer_to_hopeful(ballot: 'Ballot'):
     """the ballot moves forward to the first hopeful candidate of its ranking (or is exhausted) and exactly its
     current value weight x multiplier is credited there (or to the non-transferable total); nothing else changes"""
@@ -118,9 +118,17 @@ def transfer_to_hopeful(ballot: 'Ballot'):
                     and_(E.exhausted == old(E.exhausted),
                          field_updated(Candidate, 'vote', top, old(top.vote) + v))),
             name='value credited to the new top candidate only')
+    # ledger (C02): the total of all tallies and the non-transferable total grows by exactly the ballot's value, and the
+    # value the ballot carried moves from the candidate it stood with to the one it now stands with (0: exhausted)
+    requires(is_the_election(E))
+    requires(is_ballot(ballot))
+    ensures(ghost('T') == old(ghost('T')) + v, name='ledger: the total credited grows by exactly the value of the ballot')
+    ensures(ghost_moved('G', old(top_ref(ballot)), top_ref(ballot), v),
+            name='ledger: the value carried by the ballot moves with it')
     modifies(ballot, 'index')
     modifies(E, 'exhausted')
     modifies_all(Candidate, 'vote')
+    modifies_ghost('T', 'G')
 
 
 @loops(TRANSFER_H, anchor='while#1')
@@ -129,6 +137,8 @@ def transfer_loop(ballot):
     invariant(ballot.index >= old(ballot.index))
     invariant(ballot.index <= seq_len(r))
     invariant(forall(range(old(ballot.index), ballot.index), lambda j: cand_by_cid(seq_at(r, j)).state != 'hopeful'))
+    invariant(ghost('T') == old(ghost('T')))
+    invariant(ghost_moved('G', old(top_ref(ballot)), top_ref(ballot), ballot_value(ballot)))
     variant(seq_len(r) - ballot.index)
 
 
